@@ -276,4 +276,80 @@ theorem moveFunds_in_eq (src dst : Addr) (hne : src ≠ dst) : ∀ (l : List (De
       simp only [] at b1 ⊢
       omega
 
+theorem moveFunds_pending (src dst : Addr) : ∀ (l : List (Denom × Nat)) (s s' : Sys),
+    s.moveFunds src dst l = .ok s' → s'.chain.pending = s.chain.pending := by
+  intro l
+  induction l with
+  | nil => intro s s' hx; simp only [Sys.moveFunds] at hx; cases hx; rfl
+  | cons c rest ih =>
+    intro s s' hx
+    obtain ⟨d, amt⟩ := c
+    simp only [Sys.moveFunds] at hx
+    split at hx
+    · cases hx
+    · rename_i s1 h1
+      have := ih s1 s' hx
+      unfold Sys.bankMove at h1
+      exc_split at h1
+      exact this
+
+/-- only WithdrawDelegatorReward touches pending rewards -/
+theorem handle_pending (s s' : Sys) (m : Msg) (ms : List Msg) (hx : s.handle m = .ok (s', ms))
+    (hm : ∀ d v, m ≠ .withdrawReward d v) : s'.chain.pending = s.chain.pending := by
+  cases m with
+  | withdrawReward d v => exact absurd rfl (hm d v)
+  | bankSend src dst d amt =>
+    simp only [Sys.handle] at hx; exc_norm at hx
+    split at hx
+    · cases hx
+    · rename_i s1 h1
+      unfold Sys.bankMove at h1
+      exc_split at h1
+      cases hx; rfl
+  | delegate who v amt => simp only [Sys.handle] at hx; exc_norm at hx; exc_split at hx; rfl
+  | undelegate who v amt => simp only [Sys.handle] at hx; exc_norm at hx; exc_split at hx; rfl
+  | redelegate who a b amt => simp only [Sys.handle] at hx; exc_norm at hx; exc_split at hx; rfl
+  | setWithdrawAddr who a => simp only [Sys.handle] at hx; exc_norm at hx; exc_split at hx; rfl
+  | wasm a b c d =>
+    obtain ⟨s1, h1, hc⟩ := handle_wasm_chain_eq s s' _ _ _ _ ms hx
+    rw [hc]; exact moveFunds_pending a b d s s1 h1
+
+/-- funds attached to a call leave the caller's account exactly -/
+theorem moveFunds_out_eq (src dst : Addr) (hne : src ≠ dst) : ∀ (l : List (Denom × Nat)) (s s' : Sys),
+    s.moveFunds src dst l = .ok s' → ∀ (d : Denom), s'.chain.bank src d + fundsOf d l = s.chain.bank src d := by
+  intro l
+  induction l with
+  | nil => intro s s' hx d; simp only [Sys.moveFunds] at hx; cases hx; simp [fundsOf]
+  | cons c rest ih =>
+    intro s s' hx d
+    obtain ⟨dn, amt⟩ := c
+    simp only [Sys.moveFunds] at hx
+    split at hx
+    · cases hx
+    · rename_i s1 h1
+      have b2 := ih s1 s' hx d
+      rw [fundsOf_cons]
+      have b1 : s1.chain.bank src d + (if dn = d then amt else 0) = s.chain.bank src d := by
+        unfold Sys.bankMove at h1
+        exc_split at h1
+        rename_i hz hge
+        simp only [Sys.setBank, upd]
+        by_cases h3 : d = dn
+        · subst h3; simp [hne]; omega
+        · have : ¬ dn = d := fun h => h3 h.symm
+          simp [hne, h3, this]
+      simp only [] at b1 ⊢
+      omega
+
+/-- a bank transfer to somebody else takes exactly the amount from the sender -/
+theorem bankMove_src (s s' : Sys) (src dst : Addr) (d : Denom) (amt : Nat) (hne : src ≠ dst)
+    (hx : s.bankMove src dst d amt = .ok s') :
+    s'.chain.bank src d + amt = s.chain.bank src d ∧ ∀ d', d' ≠ d → s'.chain.bank src d' = s.chain.bank src d' := by
+  unfold Sys.bankMove at hx
+  exc_split at hx
+  rename_i hz hge
+  refine ⟨?_, fun d' hd => ?_⟩
+  · simp [Sys.setBank, upd, hne]; omega
+  · simp [Sys.setBank, upd, hne, hd]
+
 end Krp
